@@ -7,60 +7,109 @@
 (***************************************************************************)
 EXTENDS Mono
 
-CONSTANTS PageSize,   \* page size
-          Family,     \* request family, see below
-          MaxLen,     \* number of operations
-          WithMvc,    \* include the move constructor (drops the upstream: findings/C06_move_drops_upstream.md)
-          Sim         \* TRUE: keep the operation history and print it at the end of every behaviour
+CONSTANTS Configs,    \* set of [P, fam, len, mvc]: page size, request family (below), number of operations,
+                      \* whether the move constructor is included (it drops the upstream:
+                      \* findings/C06_move_drops_upstream.md); one run explores every configuration of the set
+          Sim         \* TRUE: one random operation per step, the operation history is printed at the end
 
-VARIABLES len, hist
+VARIABLES cf, len, hist
 
-mcvars == <<vars, len, hist>>
+mcvars == <<vars, cf, len, hist>>
+
+C(p, f, n) == [P |-> p, fam |-> f, len |-> n, mvc |-> FALSE]
+QuickConfigs == {C(256, "mid", 3), C(256, "many", 2), C(128, "mid", 2), C(256, "rem", 2)}
+ThoroughConfigs == {C(256, "full", 3), C(256, "mid", 4), C(256, "many", 3), C(256, "rem", 4),
+                    C(128, "mid", 3), C(128, "many", 2), C(128, "rem", 3), C(512, "mid", 3), C(512, "many", 2), C(512, "rem", 4),
+                    C(4096, "mid", 3), C(4096, "many", 2)}
+MvcConfigs == {[P |-> 256, fam |-> "mid", len |-> 3, mvc |-> TRUE]}
+Sim128 == {C(128, "sim", 12)}
+Sim256 == {C(256, "sim", 12)}
+Sim512 == {C(512, "sim", 12)}
+
+Family == cf.fam
+MaxLen == cf.len
+WithMvc == cf.mvc
 
 ReqBytes ==
   CASE Family = "full" -> {0, 1, 8, 120, 128, 129, P - 128, P - 127, P - 1, P, P + 1, 2 * P}
     [] Family = "mid"  -> {0, 1, 120, P - 128, P - 127, P, P + 1}
     [] Family = "many" -> {8, P - 127, P + 1}
+    [] Family = "rem"  -> {8, P - 128, P - 127}
     [] Family = "sim"  -> {0, 1, 8, 120, 128, 129, P - 128, P - 127, P - 1, P, P + 1, 2 * P}
 ReqAligns ==
   CASE Family = "full" -> {1, 8, 64, P, 2 * P}
     [] Family = "mid"  -> {1, 64, 2 * P}
     [] Family = "many" -> {1, 64}
+    [] Family = "rem"  -> {1, 8}
     [] Family = "sim"  -> {1, 8, 64, P, 2 * P, 4 * P}
+\* requests relative to the space left in the current page after aligning: the exact boundary of the
+\* fits / does-not-fit decision and of the "page array in the tail of the old page" placement
+RelDeltas ==
+  CASE Family = "mid"  -> {0, 1}
+    [] Family = "many" -> {-128, -127}
+    [] Family = "rem"  -> {-129, -128, -127, -1, 0, 1}
+    [] Family = "sim"  -> {-129, -128, -127, -1, 0, 1}
+    [] OTHER -> {}
+Requests(al) == {b \in ReqBytes \cup {(fe - RoundUp(fb, al)) + d : d \in RelDeltas} : b >= 0}
 \* macro requests: cnt x (bytes, align)
 ManyReqs ==
   CASE Family = "many" -> {<<c, b, 8>> : c \in {13, 14, 15}, b \in {P \div 2, P - 127, P, P + 1}} \cup {<<14, 1, 2 * P>>}
+    [] Family = "rem"  -> {<<c, P \div 2 + 1, 8>> : c \in {14, 15}}
     [] Family = "sim"  -> {<<c, b, 8>> : c \in {3, 14, 15, 16}, b \in {P \div 2 + 1, P - 127, P, P + 1}}
     [] OTHER -> {}
 RegCounts == IF Family \in {"many", "sim"} THEN {13, 14} ELSE {}
-WithMoves == Family # "many"
+WithMoves == Family \notin {"many", "rem"}
 
 Tok2(a, b) == a \o ":" \o ToString(b)
 Tok3(a, b, c) == a \o ":" \o ToString(b) \o ":" \o ToString(c)
 Tok4(a, b, c, d) == a \o ":" \o ToString(b) \o ":" \o ToString(c) \o ":" \o ToString(d)
-Rec(tok) == hist' = IF Sim THEN Append(hist, tok) ELSE hist
+Rec(tok) == hist' = Append(hist, tok)
 
 ContainsCands ==
-  {q \in {0, fb, fb - 1, fe, fe - 1, fe + 8, UB - 1} \cup UNION {{x.a, x.a + x.n - 1, x.a + x.n} : x \in blocks}
-         \cup {k.a : k \in Book} : q >= 0}
+  {q \in {0, fb - 1, fe - 1, fe + 8} \cup {x.a + x.n - 1 : x \in {y \in blocks : y.n >= P}} : q >= 0}
 
-MCInit == Init(PageSize) /\ len = 0 /\ hist = <<>>
+MCInit == \E c \in Configs : cf = c /\ Init(c.P) /\ len = 0 /\ hist = <<>>
 
-MCNext ==
+\* exhaustive exploration: every request of the family at every step
+AllNext ==
+  /\ len < MaxLen
+  /\ len' = len + 1
+  /\ UNCHANGED <<hist, cf>>
+  /\ \/ \E al \in ReqAligns : \E b \in Requests(al) : Allocate(b, al)
+     \/ RegisterDestructor
+     \/ \E m \in ManyReqs : AllocateMany(m[1], m[2], m[3])
+     \/ \E c \in RegCounts : RegisterMany(c)
+     \/ Release("release")
+     \/ WithMoves /\ MoveAssign
+     \/ WithMvc /\ MoveConstruct
+
+\* simulation: ONE randomly chosen operation per step (RandomElement is evaluated once, inside a singleton
+\* set), so that a behaviour costs one successor per step; the operation sequence is recorded in hist
+Pick(S) == {RandomElement(S)}
+SimNext ==
   \/ /\ len < MaxLen
-     /\ len' = len + 1
-     /\ \/ \E b \in ReqBytes, al \in ReqAligns : Allocate(b, al) /\ Rec(Tok3("a", b, al))
-        \/ RegisterDestructor /\ Rec("d")
-        \/ \E m \in ManyReqs : AllocateMany(m[1], m[2], m[3]) /\ Rec(Tok4("am", m[1], m[2], m[3]))
-        \/ \E c \in RegCounts : RegisterMany(c) /\ Rec(Tok2("dm", c))
-        \/ Release("release") /\ Rec("r")
-        \/ WithMoves /\ MoveAssign /\ Rec("ma")
-        \/ WithMvc /\ MoveConstruct /\ Rec("mc")
-        \/ Sim /\ \E q \in ContainsCands : Contains(q) /\ Rec(Tok2("c", q))
-  \/ /\ Sim /\ len = MaxLen
+     /\ len' = len + 1 /\ cf' = cf
+     /\ \E kind \in Pick(1..20) :
+          CASE kind <= 9 ->
+                 \E al \in Pick(ReqAligns) : \E b \in Pick(Requests(al)) : Allocate(b, al) /\ Rec(Tok3("a", b, al))
+            [] kind \in 10..11 ->
+                 \E m \in Pick(ManyReqs) : AllocateMany(m[1], m[2], m[3]) /\ Rec(Tok4("am", m[1], m[2], m[3]))
+            [] kind \in 12..14 -> RegisterDestructor /\ Rec("d")
+            [] kind = 15 ->
+                 \E c \in Pick(RegCounts) :
+                    IF Len(das) > 0 /\ Len(Last(das).ents) + c <= CAP
+                    THEN RegisterMany(c) /\ Rec(Tok2("dm", c))
+                    ELSE RegisterDestructor /\ Rec("d")
+            [] kind \in 16..17 -> \E q \in Pick(ContainsCands) : Contains(q) /\ Rec(Tok2("c", q))
+            [] kind = 18 -> Release("release") /\ Rec("r")
+            [] kind = 19 -> MoveAssign /\ Rec("ma")
+            [] OTHER -> \E b \in Pick({P - 127, P, P + 1, 2 * P}) : Allocate(b, 8) /\ Rec(Tok3("a", b, 8))
+  \/ /\ len = MaxLen
      /\ PrintT(<<"PROG", P, hist>>)
      /\ len' = len + 1
-     /\ UNCHANGED <<vars, hist>>
+     /\ UNCHANGED <<vars, hist, cf>>
+
+MCNext == IF Sim THEN SimNext ELSE AllNext
 
 MCSpec == MCInit /\ [][MCNext]_mcvars
 =============================================================================
